@@ -47,13 +47,9 @@ func (x *Exec) mapDom(st *State, m *Term, mt *types.Map) *Term {
 	dn, ds := x.mapDomHeap(mt)
 	h := x.heap(st, dn, ds)
 	d := x.tt.Select(h, m)
-	// nil map has empty domain
-	if !x.nilMapSeen[dn] {
-		x.nilMapSeen[dn] = true
-		_, inner := splitArraySort(ds)
-		x.addFactRaw(x.tt.Eq(x.tt.Select(x.tt.Sym(dn+"@0", ds), x.tt.IntLit(0)), x.tt.ConstArray(inner, x.tt.False())))
-	}
-	return d
+	// nil map has empty domain (in every state)
+	_, inner := splitArraySort(ds)
+	return x.tt.Ite(x.tt.Eq(m, x.tt.IntLit(0)), x.tt.ConstArray(inner, x.tt.False()), d)
 }
 
 func (x *Exec) mapValAddr(mt *types.Map, m, k *Term) *Term {
@@ -80,6 +76,10 @@ func (x *Exec) mapGet(st *State, m *Term, mt *types.Map, k Value) (Value, *Term)
 		t := tt.Select(tt.Select(h, m), kt)
 		x.assumeLoaded(st, t, mt.Elem())
 		v = t
+	}
+	if vt, isT := v.(*Term); isT && vt.Sort == "Val" && !vt.hasBound {
+		boxed := x.tt.Ctor("vptr", "Val", x.tidLit(types.NewMap(mt.Key(), mt.Elem())), m)
+		x.addFact(x.tt.Implies(x.tt.And(ok, x.isJSON(boxed)), x.isJSON(vt)))
 	}
 	z := x.zero(mt.Elem())
 	return x.iteVal(ok, v, z), ok
@@ -231,6 +231,10 @@ func (x *Exec) execNext(fr *Frame, st *State, i *ssa.Next) {
 		t := tt.Select(tt.Select(h, ri.m), kt)
 		x.assumeLoaded(st, t, mt.Elem())
 		v = t
+		if t.Sort == "Val" {
+			boxed := tt.Ctor("vptr", "Val", x.tidLit(types.NewMap(mt.Key(), mt.Elem())), ri.m)
+			x.addFact(tt.Implies(tt.And(ok, x.isJSON(boxed)), x.isJSON(t)))
+		}
 	}
 	x.setReg(st, i, &Agg{Elems: []Value{ok, k, v}, T: i.Type()})
 }
